@@ -62,6 +62,8 @@ def run(facts, rep, tier):
     rep.rule('PA.2', 'listChildren: exactly one entry is recorded per readdir result except exactly the names "." and ".." (filter evaluated on an exhaustive table of names); documented exceptions')
     rep.rule('PA.3', 'size: a file is measured by seek(END)+tell on a stream that is closed afterwards; a directory is the sum of join(*this, child).size() over every child; isFile <=> exists && !isDirectory')
     rep.rule('PA.4', 'join (evaluated on an exhaustive table of short strings over the separator alphabet): empty p1 -> p2; absolute p2 (leading separator on this platform) -> p2; otherwise p1, one separator iff p1 does not end with one, p2')
+    rep.rule('PA.7', 'exists() / isFile() / isDirectory() answer for what the path *leads to*: every primitive they (and the helpers they call) use follows symbolic links, as the fopen / opendir of '
+                     'File::open, size() and listChildren() do; lstat / readlink / AT_SYMLINK_NOFOLLOW describe the link itself')
     rep.rule('PA.6', 'getWorkingDirectory(): the buffer handed to getcwd is at least PATH_MAX bytes (every working directory the process can be in fits) and not smaller than the length passed')
     rep.rule('PA.5', 'DirectoryVisitor: visit() saves getWorkingDirectory() before setWorkingDirectory(m_dir); the destructor restores the saved directory whenever one was saved')
     rep.assume('the operating system and libc (fopen / opendir / readdir / chdir / getcwd) behave as documented; POSIX build')
@@ -308,6 +310,8 @@ def run(facts, rep, tier):
                     else: rep.inconclusive('PA.5', 'the destructor restores the saved working directory', sets[0].site, f'the directory passed to setWorkingDirectory ({v0}) was not followed')
                 else:
                     rep.check(not sets, 'PA.5', 'nothing is restored when nothing was saved', dt[0].shortloc(), 'chdir to an empty path', key='PA.5|dtor-none', fn=dt[0].name)
+    # ---- PA.7 ---------------------------------------------------------------------------------------------------------------------------------
+    _link_rules(facts, rep)
     # ---- PA.6 ---------------------------------------------------------------------------------------------------------------------------------
     gw = facts.fn(f'{P}::getWorkingDirectory')
     if gw is None: rep.anchor_missing(f'{P}::getWorkingDirectory', 'not found')
@@ -420,3 +424,34 @@ def _interp_returns(f, env, facts):
         if st.k == 'return': return ev.s(st.n('sub'))
         raise Unsupported(f'statement {st.k} in join')
     raise Unsupported('no return')
+
+
+NOFOLLOW = {'lstat', 'lstat64', 'readlink', 'readlinkat', 'std::filesystem::symlink_status', 'std::filesystem::is_symlink', 'std::filesystem::read_symlink'}
+FOLLOW = {'fopen', 'opendir', 'stat', 'stat64', 'access', 'open', 'std::filesystem::status', 'std::filesystem::exists', 'std::filesystem::is_directory', 'std::filesystem::is_regular_file'}
+
+
+def _link_rules(facts, rep):
+    for name in ('exists', 'isDirectory', 'isFile'):
+        f0 = facts.fn(f'{P}::{name}')
+        if f0 is None: continue
+        seen = set(); work = [f0]; prims = []
+        while work:
+            g = work.pop()
+            if g.name in seen or len(seen) > 20: continue
+            seen.add(g.name)
+            for n in g.nodes():
+                if n.k != 'call': continue
+                q = strip_targs(n.calleeq or '')
+                if q in NOFOLLOW or q in FOLLOW: prims.append((q, n, g))
+                elif q in ('fstatat', 'fstatat64') : prims.append((('lstat' if any('NOFOLLOW' in (a.text() or '') or a.d.get('const') == 0x100 for a in n.ns('args') if a is not None) else 'stat'), n, g))
+                elif n.callee_in_root:
+                    for t in facts.resolve(n):
+                        if t.file == f0.file and t.cfg is not None: work.append(t)
+        bad = [(q, n, g) for q, n, g in prims if q in NOFOLLOW]
+        inst = f'{P.split("::")[-1]}::{name}() is decided by primitives that follow symbolic links'
+        if bad:
+            q, n, g = bad[0]
+            rep.violation('PA.7', inst, n.shortloc(), f'{g.name.split("::")[-1]}() uses {q}(), which describes a symbolic link itself instead of what it leads to: for a link to a directory / a dangling link {name}() disagrees with the fopen / opendir '
+                          'that File::open, size() and listChildren() perform on the same path (a link to a directory is opened as a file, a dangling link is "found")', key=f'PA.7|{name}', fn=f0.name)
+        elif prims: rep.ok('PA.7', inst + f' ({", ".join(sorted({q for q, _, _ in prims}))})', f0.shortloc())
+        else: rep.inconclusive('PA.7', inst, f0.shortloc(), 'no filesystem primitive recognised in the function or its helpers')
